@@ -102,12 +102,3 @@ Lemma f8_parked :
   runt f8_st = TStopWait.
 Proof. vm_compute. auto. Qed.
 
-(* ------------------------------------------------------------------ reloadMu discipline *)
-
-Definition inside (p : rpc) : bool := negb (outside p).
-
-(* whoever is inside Reload's critical section holds reloadMu; with the repair, so does Run's teardown *)
-Definition I_mu (P : params) (s : state) : Prop :=
-  (forall k r, nth_error (reloaders s) k = Some r -> inside (r_pc r) = true -> reload_mu s = Some (ORel k))
-  /\ (fix_c09 P = true ->
-      match runt s with TStopBegin | TStopWait => reload_mu s = Some ORun | _ => True end).
